@@ -1,4 +1,4 @@
-CONSTANTS Scope = "table" TableLo = 1 NTable = 2 MaxLen = 3 RunCalls = TRUE Transports = {"grpc", "rest"} FreeJitter = TRUE Mutant = "none"
+CONSTANTS Scope = "table" TableLo = 1 NTable = 2 MaxLen = 2 RunCalls = TRUE Transports = {"grpc", "grpc_asyncio", "rest"} FreeJitter = TRUE Mutant = "none"
 SPECIFICATION Spec
 INVARIANT Inv_Resolve
 INVARIANT Inv_Loaded
